@@ -2159,6 +2159,49 @@ def oracle_blocks(ctx, blocks):
                       "oracle.block-values")
 
 
+# form feed and the other characters Python's tokenizer treats as blanks in leading whitespace.  CPython: a line
+# holding nothing but such characters is a blank line; a FF in the leading whitespace of a statement resets the
+# column count.  A block written at a uniform margin may therefore carry a page-break line anywhere.
+FORMFEED_BLOCKS = [
+    # (name, tagged lines, names)          'raw' lines are written without the margin
+    ("ff-line-before-first-statement", [("raw", "\x0c"), ("code", "a = 'ok'"), ("code", "b = a + '!'")], ["a", "b"]),
+    ("ff-line-between-statements", [("code", "a = 'ok'"), ("raw", "\x0c"), ("code", "b = a + '!'")], ["a", "b"]),
+    ("indented-ff-line-before-first-statement", [("code", "\x0c"), ("code", "a = 'ok'"), ("code", "b = a + '!'")], ["a", "b"]),
+    ("indented-ff-line-between-statements", [("code", "a = 'ok'"), ("code", "\x0c"), ("code", "b = a + '!'")], ["a", "b"]),
+    ("ff-line-in-suite", [("code", "if True:"), ("code", "    a = 'ok'"), ("raw", "\x0c"), ("code", "    b = a + '!'")], ["a", "b"]),
+    ("ff-line-after-last-statement", [("code", "a = 'ok'"), ("code", "b = a + '!'"), ("raw", "\x0c")], ["a", "b"]),
+]
+
+
+def oracle_formfeed_blocks(ctx, _unused):
+    """always-run witnesses (round 6): a form-feed (page-break) line in a block written at a uniform margin.  Expected
+    value = what CPython gives for the margin-0 source (native_exec), as for every other block case."""
+    st = ctx.stream("oracle.block-formfeed", "oracle")
+    reported = {}
+    for name, lines, names in FORMFEED_BLOCKS:
+        src = block_is_valid(lines)
+        assert src is not None, name
+        want = native_exec(src, names)
+        assert want[0] == "ok", (name, want)
+        for margin in ("    ", "\t", ""):
+            for variant in ("top", "def", "module", "if"):
+                st["cases"] += 1
+                ctx.nontriv(("ffblk", name, margin, variant))
+                text = block_template(variant, with_margin(lines, margin), margin, names)
+                got = template_exec(text)
+                ctx.branch("oracle.block-formfeed:" + name + ":" + ("ok" if got == want else "differs"))
+                if got == want:
+                    continue
+                site = "remargin-formfeed-line-before-first-statement" if name == "ff-line-before-first-statement" \
+                    else "remargin-formfeed:" + name
+                if site in reported:
+                    continue
+                reported[site] = True
+                ctx.violation(site, {"input": "\n".join(with_margin(lines, margin)), "feature": name, "variant": variant,
+                                     "margin": margin, "names": names, "native_source": src},
+                              "template gives %r, native exec gives %r" % (got, want), "oracle.block-formfeed")
+
+
 # =========================================================================== oracle (d): identifiers
 
 def name_roles(tree, name):
@@ -2537,6 +2580,7 @@ def run(ctx):
         stream("oracle.signatures", oracle_signatures, 250 if q else 4000)
         stream("oracle.def-attributes", oracle_def_attributes, 60 if q else 800)
         stream("oracle.blocks", oracle_blocks, execs[: (200 if q else 2000)] + execs[n_exec: n_exec + (30 if q else 300)])
+        stream("oracle.block-formfeed", oracle_formfeed_blocks, None)
         stream("oracle.identifiers", oracle_identifiers, blocks[: (800 if q else 6000)])
         stream("oracle.strict", oracle_strict_undefined,
                parse_all(CORPUS_BLOCKS, "exec") + gen_blocks(ctx, 150 if q else 1000, expr_depth=2))
